@@ -30,7 +30,12 @@ EXPLANATION = (
     "2048*26*51 and gcd(26,51) == 1 are folded constants. The quantifier over all frame numbers is covered because "
     "the compared objects are the formulas themselves, not their values. A local helper that is handed the caller's own "
     "struct gsm_time pointer is substituted (fields renamed, early returns kept as conditions), Python assertions / defensive "
-    "raises are conditional arms decided by intervals over FN in 0..2715647; every rule group is a deferred stage.")
+    "raises are conditional arms decided by intervals over FN in 0..2715647; every rule group is a deferred stage. The normal form "
+    "includes the division identities a - c*(a div c) == a mod c, (x mod (m*b)) div b == (x div b) mod m, (x div a) div b == "
+    "x div (a*b), m*(x div (m*b)) + (x div b) mod m == x div b (a decomposition from the position inside the superframe); the "
+    "dividend intervals are intersected with the interval of the expression's normal form (fn - (fn / c) * c is in 0..c-1). A "
+    "component whose normal form still differs from its specification term is folded, together with that term, for each of the "
+    "2715648 frame numbers: only a frame number on which they differ is a violation (reported with it).")
 ASSUMPTIONS = [
     "arithmetic consequences of the verified formulas (round trip for each of the 2715648 frame numbers, agreement of the "
     "incremental and the recomputed time at every carry point) follow by the Chinese remainder argument from the checked "
@@ -438,7 +443,9 @@ def decide_cond(c, rng=None, tables=None):
 
 def prune(t, rng, tables=None, band=None, log=None):
     """drop the arms of conditionals that cannot be taken inside `rng` (defensive branches, assertions): a
-    condition decided by decide_cond is folded, everything else is left alone.  `log` collects (condition, value)."""
+    condition decided by decide_cond is folded, everything else is left alone.  `log` collects (condition, value).
+    A reduction that is the identity on the whole box (`x mod n` / `x & (n - 1)` with 0 <= x < n for every valuation
+    inside `rng`: a defensive mask of a value that is in range already) is dropped the same way."""
     def leaf(x):
         if x[0] == "ite":
             c = renorm(x[1], leaf, band)
@@ -448,8 +455,168 @@ def prune(t, rng, tables=None, band=None, log=None):
                     log.append((c, v))
                 return renorm(x[2] if v else x[3], leaf, band)
             return ite_(c, renorm(x[2], leaf, band), renorm(x[3], leaf, band))
+        if x[0] == "mod":
+            a, n = renorm(x[1], leaf, band), renorm(x[2], leaf, band)
+            ia, im = interval(a, rng, tables), interval(n, rng, tables)
+            if im[0] > 0 and ia[0] >= 0 and ia[1] < im[0]:
+                if log is not None:
+                    log.append((X.cmp_("<", a, n), True))
+                return a
+            return mod_(a, n)
         return None
     return renorm(t, leaf, band)
+
+
+# ------------------------------------------------------------------------------
+# division identities (floor semantics, positive constant divisors; each holds for every integer)
+
+def _size(t):
+    return sum(1 for _ in subterms(t))
+
+
+def _coeffs(t):
+    """sum term -> [(base term, integer coefficient)], constant"""
+    out, c = [], 0
+    for x in (t[1:] if t[0] == "+" else (t,)):
+        if x[0] == "c":
+            c += x[1]
+        elif x[0] == "*" and len(x) == 3 and x[1][0] == "c":
+            out.append((x[2], x[1][1]))
+        else:
+            out.append((x, 1))
+    return out, c
+
+
+def _posc(t):
+    return t[0] == "c" and t[1] > 0
+
+
+def div_(a, n):
+    """X.div plus (x div a) div b == x div (a*b) and (x mod (m*b)) div b == (x div b) mod m"""
+    if _posc(n):
+        if a[0] == "div" and _posc(a[2]):
+            return div_(a[1], C(a[2][1] * n[1]))
+        if a[0] == "mod" and _posc(a[2]) and a[2][1] % n[1] == 0:
+            m = a[2][1] // n[1]
+            return C(0) if m == 1 else mod_(div_(a[1], n), C(m))
+    return X.div(a, n)
+
+
+def _euclid_sum(t):
+    """k*y - k*m*(y div m) == k*(y mod m)   and   k*(y mod m) + k*m*(y div m) == k*y; a rewrite is kept only when it
+    makes the term smaller (so the procedure terminates and never obscures a term it does not simplify)"""
+    while t[0] == "+":
+        bases, _ = _coeffs(t)
+        best = None
+        for d, q in bases:
+            cands = []
+            if d[0] == "div" and _posc(d[2]):
+                c = d[2][1]
+                # dividends y with (y div m) == d: the dividend itself, and every x div b of the sum with b * m == c
+                ys = [(d[1], c)]
+                for y, _k in bases:
+                    if y[0] == "div" and _posc(y[2]) and y[1] == d[1] and y[2][1] < c and c % y[2][1] == 0:
+                        ys.append((y, c // y[2][1]))
+                for y, m in ys:
+                    if q % m == 0:
+                        k = -(q // m)
+                        cands.append(X.add(t, X.mul(C(-q), d), X.mul(C(-k), y), X.mul(C(k), mod_(y, C(m)))))
+            if d[0] == "mod" and _posc(d[2]):
+                y, m = d[1], d[2][1]
+                dv = div_(y, C(m))
+                for e, qe in bases:
+                    if e == dv and qe == q * m:
+                        cands.append(X.add(t, X.mul(C(-q), d), X.mul(C(-qe), e), X.mul(C(q), y)))
+            for cand in cands:
+                if _size(cand) < _size(best if best is not None else t):
+                    best = cand
+        if best is None:
+            return t
+        t = best
+    return t
+
+
+def euclid(t, band=None):
+    """normal form of a term under the division identities above, bottom-up"""
+    if t[0] in ("c", "v"):
+        return t
+    t = build((t[0],) + tuple(euclid(x, band) if isinstance(x, tuple) else x for x in t[1:]), band)
+    if t[0] == "div":
+        t = div_(t[1], t[2])
+    if t[0] == "+":
+        t = _euclid_sum(t)
+    return t
+
+
+# ------------------------------------------------------------------------------
+# terms as checker-side arithmetic: a term is turned into one Python expression over its symbols (floor
+# semantics, like the normal form) so that it can be folded over a whole finite domain
+
+class _Outside(Exception):
+    pass
+
+
+def _at(tab, i):
+    if not 0 <= i < len(tab):
+        raise _Outside("index %d outside a table of %d entries" % (i, len(tab)))
+    return tab[i]
+
+
+def _red(a, n):
+    return a if a < n else a - n
+
+
+def term_src(t, names):
+    """Python source of term t; `names` maps symbol terms to identifiers.  AnalysisError outside the vocabulary."""
+    k = t[0]
+    s = lambda x: term_src(x, names)
+    if k == "c":
+        return "(%d)" % t[1]
+    if t in names:
+        return names[t]
+    if k in ("+", "*", "&", "|", "^"):
+        return "(" + (" %s " % k).join(s(x) for x in t[1:]) + ")"
+    if k in ("mod", "div", "<<", ">>"):
+        return "(%s %s %s)" % (s(t[1]), {"mod": "%", "div": "//"}.get(k, k), s(t[2]))
+    if k == "ite":
+        return "(%s if %s else %s)" % (s(t[2]), s(t[1]), s(t[3]))
+    if k == "cmp" and t[1] in ("<", "=="):
+        return "(%s %s %s)" % (s(t[2]), t[1], s(t[3]))
+    if k == "not":
+        return "(not %s)" % s(t[1])
+    if k in ("and", "or"):
+        return "(" + (" %s " % k).join(s(x) for x in t[1:]) + ")"
+    if k == "idx":
+        return "_at(%s, %s)" % (s(t[1]), s(t[2]))
+    if k == "red":
+        return "_red(%s, %s)" % (s(t[1]), s(t[2]))
+    if k == "tuple":
+        return "(" + "".join(s(x) + ", " for x in t[1:]) + ")"
+    if k == "raise":
+        return "(%r,)" % ("raise %s" % t[1])
+    if k == "none":
+        return "('None',)"
+    raise AnalysisError("term cannot be folded, `%s` is outside the checker's arithmetic" % show(t)[:80])
+
+
+def term_fn(t, names, params):
+    """callable(params...) computing term t"""
+    src = "lambda %s: %s" % (", ".join(params), term_src(t, names))
+    try:
+        return eval(compile(src, "<term>", "eval"), {"__builtins__": {}, "_at": _at, "_red": _red})
+    except (SyntaxError, RecursionError, MemoryError) as e:
+        raise AnalysisError("term cannot be folded: %s" % e)
+
+
+def first_difference(a, b, sym=("v", "FN"), n=HYPERFRAME):
+    """exhaustive fold of two terms over sym = 0..n-1: None when they agree everywhere, else (value, a(value),
+    b(value)) for the first value where they differ.  AnalysisError when a term leaves the checker's arithmetic."""
+    fa, fb = term_fn(a, {sym: "x"}, ["x"]), term_fn(b, {sym: "x"}, ["x"])
+    try:
+        w = next((x for x in range(n) if fa(x) != fb(x)), None)
+        return None if w is None else (w, fa(w), fb(w))
+    except (ArithmeticError, _Outside, TypeError, ValueError) as e:
+        raise AnalysisError("term cannot be folded over 0..%d: %s" % (n - 1, e))
 
 
 def evalnum(t, env):
@@ -543,6 +710,10 @@ class _PL(X.PyLower):
         if isinstance(e, ast.Compare) and len(e.ops) == 1 and isinstance(e.ops[0], (ast.Is, ast.IsNot)) \
                 and isinstance(e.comparators[0], ast.Constant) and e.comparators[0].value is None:
             t = X.cmp_("==", self.lower(e.left), V("None"))
+            return t if isinstance(e.ops[0], ast.Is) else ("not", t)
+        if isinstance(e, ast.Compare) and len(e.ops) == 1 and isinstance(e.ops[0], (ast.Is, ast.IsNot)):
+            # identity of two objects: an opaque atom (never folded, never equal to an arithmetic comparison)
+            t = ("cmp", "is") + tuple(sorted([self.lower(e.left), self.lower(e.comparators[0])], key=repr))
             return t if isinstance(e.ops[0], ast.Is) else ("not", t)
         return None
 
@@ -659,7 +830,7 @@ class PySym:
                 self._assign(st.target, self.lower(val, env), env)
                 continue
             if isinstance(st, ast.Return):
-                return ("ret", self.lower(st.value, env) if st.value is not None else ("none",))
+                return ("ret", self.lower(st.value, env) if st.value is not None else ("none",), dict(env))
             if isinstance(st, ast.Raise):
                 e = st.exc.func if isinstance(st.exc, ast.Call) else st.exc
                 return ("raise", canon(e) if e is not None else "Exception")
@@ -1200,8 +1371,45 @@ def craw(tu, n, rng, loc=None):
             iv = (0, min(a[1], b[1]))
         else:
             return None
+        if op in ("+", "-", "*"):
+            # operand-wise intervals forget that both operands depend on the same symbols (fn - (fn / c) * c): no
+            # sub-expression wraps (checked above), so the value is that of the expression's normal form -- a second
+            # enclosure, intersected with the first
+            r = _term_interval(tu, n, rng, loc)
+            if r is not None:
+                iv = (max(iv[0], r[0]), min(iv[1], r[1]))
         return _fit(iv, n, ctext(n))
     return None
+
+
+class _LocLower(CLower):
+    """CLower that reads initialised-once temporaries through (single_def_locals)"""
+
+    def __init__(self, tu, loc):
+        CLower.__init__(self, tu, {})
+        self.loc = loc or {}
+        self.depth = 0
+
+    def lower(self, n):
+        m = strip(n)
+        if kind(m) == "DeclRefExpr":
+            d = self.loc.get(m.get("referencedDecl", {}).get("id"))
+            if d is not None and self.depth < 16:
+                self.depth += 1
+                try:
+                    return self.lower(kids(d)[-1])
+                finally:
+                    self.depth -= 1
+        return CLower.lower(self, n)
+
+
+def _term_interval(tu, n, rng, loc):
+    try:
+        t = euclid(renorm(_LocLower(tu, loc).lower(n)))
+    except (AnalysisError, RecursionError):
+        return None
+    iv = interval(t, {V(k): v for k, v in rng.items()})
+    return None if iv[0] > iv[1] else iv
 
 
 def craw_txt(iv):
@@ -1255,7 +1463,7 @@ def c_decomposition(L, rule):
     ren = lambda t: V("FN") if t == V(fnname) else None
     comp = {}
     for fld in ("fn", "t1", "t2", "t3", "tc"):
-        comp[fld] = renorm(sym.final(out, "%s->%s" % (tname, fld)), ren)
+        comp[fld] = euclid(renorm(sym.final(out, "%s->%s" % (tname, fld)), ren))
     # C division / remainder: floor semantics need a non-negative dividend that does not wrap
     rng = {fnname: (0, HYPERFRAME - 1), "%s->fn" % tname: (0, HYPERFRAME - 1)}
     ndiv = 0
@@ -1297,7 +1505,30 @@ def py_decomposition(L, repo, rule):
                 break
     if res[0] != "tuple" or len(res) != 5:
         raise AnalysisError("HoppingParams.fn2gsm_time does not return a 4-tuple on every path: %s" % show(res)[:80])
-    return fd, dict(zip(("t1", "t2", "t3", "tc"), res[1:]))
+    return fd, dict(zip(("t1", "t2", "t3", "tc"), [euclid(x) for x in res[1:]]))
+
+
+def component_verdict(L, got, want, what):
+    """(ok, text of what was found, the term to go on with) for one time component against its TS 45.002 4.3.3 term.
+    Equal normal forms close the clause for every FN.  Normal forms that differ decide nothing by themselves (the
+    same function can be written in many ways): the two terms are then folded for every frame number of the
+    hyperframe -- the property's whole, finite domain -- and only a frame number on which they differ is a
+    violation (reported with that frame number)."""
+    d = diff(got, want)
+    if not d:
+        return True, show(got), want
+    try:
+        ce = first_difference(got, want)
+    except AnalysisError as e:
+        raise AnalysisError("%s: `%s` is not in the normal form of the specification term `%s` and %s" % (
+            what, show(got)[:120], show(want), e))
+    if ce is None:
+        L.extra.setdefault("decided_by_enumeration", []).append(
+            "%s: %s == %s for every FN in 0..%d" % (what, show(got)[:160], show(want), HYPERFRAME - 1))
+        return True, "%s -- equal to %s for each of the %d frame numbers (folded; the normal forms differ)" % (
+            show(got), show(want), HYPERFRAME), want
+    return False, "%s -- differs in %s (specification: %s), e.g. FN = %d: found %s, specification %s" % (
+        show(got), "; ".join(show(a) for a, b in d), "; ".join(show(b) for a, b in d), ce[0], ce[1], ce[2]), got
 
 
 def r1_decomposition(L, repo, rule="C19.R1", hopping_only=False):
@@ -1313,30 +1544,36 @@ def r1_decomposition(L, repo, rule="C19.R1", hopping_only=False):
             n += 3
             for fld, w, txt in (("t1", mod_(want["t1"], C(64)), "T1 mod 64 = (FN div 1326) mod 64"),
                                 ("t2", want["t2"], "T2 = FN mod 26"), ("t3", want["t3"], "T3 = FN mod 51")):
-                got = renorm(mod_(comp[fld], C(64))) if fld == "t1" else comp[fld]
-                d = diff(got, w)
-                L.ob(rule, file, func, "%s (TS 45.002 4.3.3; what the hopping formula consumes)" % txt, show(w),
-                     show(got) if not d else "%s -- differs in %s (specification: %s)" % (
-                         show(got), "; ".join(show(a) for a, b in d), "; ".join(show(b) for a, b in d)), not d, line)
+                got = euclid(renorm(mod_(comp[fld], C(64)))) if fld == "t1" else comp[fld]
+                ok, txt_found, _ = component_verdict(L, got, w, "%s: %s" % (func, txt))
+                L.ob(rule, file, func, "%s (TS 45.002 4.3.3; what the hopping formula consumes)" % txt, show(w), txt_found, ok, line)
         L.floor(rule, "component expressions (C + Python)", n, 6)
         return {}, cc, pc, tu
     for fld in ("t1", "t2", "t3", "tc"):
-        for (side, file, func, got, line) in (("C", F_UTILS, "gsm_fn2gsmtime", cc[fld], tu.line(f)),
-                                               ("Python", F_GSM, "HoppingParams.fn2gsm_time", pc[fld], fd.lineno)):
+        raw = {}
+        for (side, file, func, comp, line) in (("C", F_UTILS, "gsm_fn2gsmtime", cc, tu.line(f)),
+                                                ("Python", F_GSM, "HoppingParams.fn2gsm_time", pc, fd.lineno)):
             n += 1
-            d = diff(got, want[fld])
-            L.ob(rule, file, func, "%s = %s (TS 45.002 4.3.3)" % (fld.upper(), SPEC_TXT[fld]), show(want[fld]),
-                 show(got) if not d else "%s -- differs in %s (specification: %s)" % (
-                     show(got), "; ".join(show(a) for a, b in d), "; ".join(show(b) for a, b in d)),
-                 not d, line)
-            iv = interval(got, {V("FN"): (0, HYPERFRAME - 1)})
+            raw[side] = comp[fld]
+            ok, txt_found, comp[fld] = component_verdict(L, comp[fld], want[fld], "%s: %s = %s" % (func, fld.upper(), SPEC_TXT[fld]))
+            L.ob(rule, file, func, "%s = %s (TS 45.002 4.3.3)" % (fld.upper(), SPEC_TXT[fld]), show(want[fld]), txt_found, ok, line)
+            iv = interval(comp[fld], {V("FN"): (0, HYPERFRAME - 1)})
             if side == "C":
                 L.ob(rule, file, func, "%s fits its struct gsm_time field for FN in 0..2715647" % fld.upper(),
                      "[0, %d]" % FIELD_MAX[fld], ivtxt(iv), iv[0] >= 0 and iv[1] <= FIELD_MAX[fld], line)
+        # both sides decided equal to the same specification term are equal; otherwise (one of them is wrong) they
+        # are compared with each other the same way
+        same = cc[fld] == pc[fld]
+        if not same:
+            try:
+                same = first_difference(cc[fld], pc[fld]) is None
+            except AnalysisError:
+                same = False
         L.ob(rule, F_GSM, "HoppingParams.fn2gsm_time", "Python and C derive the same %s from a frame number" % fld.upper(),
-             show(cc[fld]), show(pc[fld]), cc[fld] == pc[fld], fd.lineno)
+             show(raw["C"]), show(raw["Python"]), same, fd.lineno)
     L.floor(rule, "component expressions (C + Python)", n, 8)
-    L.floor(rule, "C divisions/remainders in gsm_fn2gsmtime", ndiv, 4)
+    # anchor: the decomposition divides at all (how many operators it needs is the author's choice)
+    L.floor(rule, "C divisions/remainders in gsm_fn2gsmtime", ndiv, 1)
     mods = {}
     for fld in ("t2", "t3", "tc"):
         t = cc[fld]
